@@ -73,19 +73,27 @@ Theorem C08_homma_eq_saltelli : forall ya yc, Vhat ya <> 0 -> homma_spec ya yc =
 Proof. exact homma_eq_saltelli. Qed.
 Print Assumptions C08_homma_eq_saltelli.
 
-(* Janon: the code's formula (second moment normalised by 1/(N-1)) ... *)
-Theorem C08_janon_formula_partial :
+(* Janon et al. (2014): every empirical moment a 1/N average (the code after the fix "Janon estimator normalises
+   the second moment by 1/N as published") *)
+Theorem C08_janon_formula :
   forall ya yb ycs n d, length ya = n -> length yb = n -> length ycs = d -> (forall c, In c ycs -> length c = n) ->
-    janon (ya ++ yb ++ concat ycs) n d = map (janon_spec ya) ycs.
+    janon (ya ++ yb ++ concat ycs) n d = map (janon_published ya) ycs.
 Proof. exact janon_formula. Qed.
-Print Assumptions C08_janon_formula_partial.
-(* ... which is NOT the published estimator of Janon et al. (every moment a 1/N average): full statement
-     janon (ya ++ yb ++ concat ycs) n d = map (janon_published ya) ycs
-   is refuted by the faithful model: *)
-Theorem C08_janon_published_refuted :
-  exists ya yc, length ya = length yc /\ (2 <= length ya)%nat /\ janon_spec ya yc <> janon_published ya yc.
-Proof. exact janon_not_published. Qed.
-Print Assumptions C08_janon_published_refuted.
+Print Assumptions C08_janon_formula.
+
+(* record of the defect: the code BEFORE the fix ([janon_orig]: second moment normalised by 1/(N-1)) computes
+   [janon_orig_spec], which is not the published estimator, and differs from the current code *)
+Theorem C08_janon_orig_formula :
+  forall ya yb ycs n d, length ya = n -> length yb = n -> length ycs = d -> (forall c, In c ycs -> length c = n) ->
+    janon_orig (ya ++ yb ++ concat ycs) n d = map (janon_orig_spec ya) ycs.
+Proof. exact janon_orig_formula. Qed.
+Print Assumptions C08_janon_orig_formula.
+
+Theorem C08_janon_published_refuted_orig :
+  (exists ya yc, length ya = length yc /\ (2 <= length ya)%nat /\ janon_orig_spec ya yc <> janon_published ya yc) /\
+  (exists outputs n d, length outputs = (n * (d + 2))%nat /\ janon_orig outputs n d <> janon outputs n d).
+Proof. exact (conj janon_orig_not_published janon_orig_differs). Qed.
+Print Assumptions C08_janon_published_refuted_orig.
 
 (* Glen-Isaacs, for every function used as square root *)
 Theorem C08_glen_formula :
@@ -120,9 +128,9 @@ Theorem C08_jansen_affine :
 Proof. exact jansen_model_affine. Qed.
 Print Assumptions C08_jansen_affine.
 
-(* ---- attribution maps = estimator of the scores of the perturbed inputs, for every forward batch size ---- *)
+(* ---- attribution maps = estimator of the scores of the perturbed inputs, for every forward batch size (None = all masks at once) ---- *)
 Theorem C08_gsa_map_is_estimator :
-  forall (score : list Qc -> list Qc -> Qc) (est : list Qc -> list Qc) pf g H W C bs masks xs ts, (1 <= bs)%nat ->
+  forall (score : list Qc -> list Qc -> Qc) (est : list Qc -> list Qc) pf g H W C bs masks xs ts, bs_valid bs ->
     gsa_explain score est pf g H W C bs masks xs ts
     = map2 (fun x t => est (perturbed_scores score (pf x) g H W C masks x t)) xs ts.
 Proof. exact gsa_explain_correct. Qed.
@@ -130,7 +138,7 @@ Print Assumptions C08_gsa_map_is_estimator.
 
 Theorem C08_sobol_map_is_estimator :
   forall (score : list Qc -> list Qc -> Qc) pf g H W C bs n A B xs ts,
-    (1 <= bs)%nat -> is_matrix n (g * g) A -> is_matrix n (g * g) B ->
+    bs_valid bs -> is_matrix n (g * g) A -> is_matrix n (g * g) B ->
     sobol_explain score jansen pf g H W C bs n (replicated_design (g * g) A B) xs ts
     = map2 (fun x t => let s := fun m => score (perturb (pf x) g H W C x m) t in
                        map (fun i => jansen_spec (map s A) (map s (c_block i A B))) (seq 0 (g * g))) xs ts.
@@ -141,7 +149,7 @@ Print Assumptions C08_sobol_map_is_estimator.
    input perturbed by a row of C_i equals the score with the matching row of A, cell i of the map is exactly 0 *)
 Theorem C08_sobol_cell_zero_inert :
   forall (score : list Qc -> list Qc -> Qc) pf g H W C bs n A B x t i,
-    (1 <= bs)%nat -> is_matrix n (g * g) A -> is_matrix n (g * g) B -> (i < g * g)%nat ->
+    bs_valid bs -> is_matrix n (g * g) A -> is_matrix n (g * g) B -> (i < g * g)%nat ->
     (forall ra rc, In (ra, rc) (combine A (c_block i A B)) ->
         score (perturb (pf x) g H W C x rc) t = score (perturb (pf x) g H W C x ra) t) ->
     nthq (nth 0 (sobol_explain score jansen pf g H W C bs n (replicated_design (g * g) A B) [x] [t]) []) i = 0.
@@ -150,7 +158,7 @@ Print Assumptions C08_sobol_cell_zero_inert.
 
 Theorem C08_hsic_map_is_estimator :
   forall (score : list Qc -> list Qc -> Qc) gramf Lof pf g H W C bs ebs n masks xs ts,
-    (1 <= bs)%nat -> (1 <= ebs)%nat ->
+    bs_valid bs -> (1 <= ebs)%nat ->
     hsic_explain score gramf Lof pf g H W C bs ebs n masks xs ts
     = map2 (fun x t => let o := perturbed_scores score (pf x) g H W C masks x t in
                        map (fun p => hsic_one gramf (Lof o) n (col p masks)) (seq 0 (g * g))) xs ts.
